@@ -274,6 +274,7 @@ func checkCondProtocol(r *Reporter, p *Prog, pkg string, conds []condInfo, minWa
 			}
 		}
 	}
+	checkCondBroadcast(r, p, pkg)
 	if nWaits < minWaits {
 		r.Fail("cond/wait-in-loop-under-locker", pkg, "-", fmt.Sprintf("expected at least %d Wait sites, found %d (vacuous)", minWaits, nWaits))
 	}
@@ -403,6 +404,92 @@ func checkWakeRow(r *Reporter, p *Prog, pkg, typ, method string, row wakeRow) {
 			r.Fail("cond/wake-obligation", key, f.PosOf(ch), fmt.Sprintf("after this state change a path reaches the exit without Signal/Broadcast on %v: a blocked waiter is never woken", row.Conds), w...)
 		} else {
 			r.Pass("cond/wake-obligation", key, f.PosOf(ch), fmt.Sprintf("every path to the exit wakes %v (or crosses an edge that proves nobody waits)", row.Conds))
+		}
+	}
+}
+
+// checkCondBroadcast: when the goroutines parked on one sync.Cond wait for DIFFERENT predicates
+// (several wait sites with different loop conditions, or a loop condition that mentions a
+// parameter of the waiting function, e.g. a threshold), a state change must wake all of them:
+// Signal wakes one waiter, possibly one whose predicate is still false - it re-waits and the
+// wake-up is lost for the waiter whose predicate became true. With one shared predicate Signal
+// is fine and is accepted.
+func checkCondBroadcast(r *Reporter, p *Prog, pkg string) {
+	info := p.Pkg(pkg).TypesInfo
+	type site struct{ pos, fn, what string }
+	waits := map[string][]site{}   // Type.cond -> wait predicates
+	signals := map[string][]site{} // Type.cond -> Signal sites
+	param := map[string]bool{}     // Type.cond -> some predicate mentions a parameter
+	for _, fd := range p.AllFuncDecls(pkg) {
+		if fd.Body == nil || strings.HasSuffix(p.Fset.Position(fd.Pos()).Filename, "_test.go") {
+			continue
+		}
+		recvT := recvTypeName(fd)
+		params := map[types.Object]bool{}
+		for _, o := range paramObjs(info, fd) {
+			if o != nil {
+				params[o] = true
+			}
+		}
+		ast.Inspect(fd.Body, func(n ast.Node) bool {
+			c, ok := n.(*ast.CallExpr)
+			if !ok {
+				return true
+			}
+			m, cf, _, ok := condCall(info, c)
+			if !ok {
+				return true
+			}
+			k := recvT + "." + cf
+			switch m {
+			case "Wait":
+				var loopCond ast.Expr
+				ast.Inspect(fd.Body, func(x ast.Node) bool {
+					if fs, ok := x.(*ast.ForStmt); ok && fs.Body.Pos() <= c.Pos() && c.End() <= fs.Body.End() {
+						loopCond = fs.Cond
+					}
+					return true
+				})
+				pred := "<none>"
+				if loopCond != nil {
+					pred = exprKey(loopCond)
+					ast.Inspect(loopCond, func(x ast.Node) bool {
+						if id, ok := x.(*ast.Ident); ok && params[info.Uses[id]] {
+							param[k] = true
+						}
+						return true
+					})
+				}
+				waits[k] = append(waits[k], site{p.posStr(c.Pos()), funcKey(pkg, fd), pred})
+			case "Signal":
+				signals[k] = append(signals[k], site{p.posStr(c.Pos()), funcKey(pkg, fd), "Signal"})
+			}
+			return true
+		})
+	}
+	for k, ws := range waits {
+		preds := map[string]bool{}
+		for _, w := range ws {
+			preds[w.what] = true
+		}
+		differ := len(preds) > 1 || param[k]
+		var plist []string
+		for pr := range preds {
+			plist = append(plist, pr)
+		}
+		sort.Strings(plist)
+		key := "wake-ups of " + pkg + "." + k
+		switch {
+		case !differ:
+			r.Pass("cond/broadcast-when-waiters-differ", key, ws[0].pos, "all waiters share one predicate ("+strings.Join(plist, ", ")+"): Signal or Broadcast both suffice")
+		case len(signals[k]) > 0:
+			var bad []string
+			for _, sg := range signals[k] {
+				bad = append(bad, sg.pos+": Signal in "+sg.fn)
+			}
+			r.Fail("cond/broadcast-when-waiters-differ", key, signals[k][0].pos, fmt.Sprintf("waiters on this condition variable wait for different predicates (%s%s) but %s wakes only one of them: a waiter whose predicate is still false can consume the wake-up and the waiter whose predicate became true sleeps on (lost wake-up)", strings.Join(plist, " / "), map[bool]string{true: "; a predicate depends on the waiter's argument", false: ""}[param[k]], bad[0]), bad...)
+		default:
+			r.Pass("cond/broadcast-when-waiters-differ", key, ws[0].pos, fmt.Sprintf("waiters differ (%s) and every wake-up is a Broadcast", strings.Join(plist, " / ")))
 		}
 	}
 }
